@@ -392,6 +392,9 @@ class Runner:
                              "%s on a %s file: library %s (%s), model %s" % (entry, cls, "accepts" if ok else "rejects", msg, mres), {"entry": entry})
                 else:
                     cov["unsupported_entry_runs"] += 1
+                if not ok and (cls == "shipped" or cls.startswith("valid") or cls == "witness-valid"):
+                    msg = bytes.fromhex(st["msg"]).decode("latin1") if st.get("msg", "-") not in ("-", None) else ""
+                    fail(fid, "valid-file-rejected", "%s REJECTS a well-formed spline file (%s): %s" % (entry, cls, msg), {"entry": entry})
                 if ok:
                     # ---- all entry points return the same table
                     if first_hash is None:
@@ -539,7 +542,7 @@ def run(info, out):
         # aim at the check classes with ten times the volume
         aimed = [m for m in M.MUTATIONS if m[1].__name__ != "f" or True]
         more = []
-        for i in range(min(10 * n, 15000)):
+        for i in range(min(10 * n, 10000)):
             g = rng.fork("search%d" % i)
             b = pool[g.below(len(pool))]
             cls, mb = M.mutate(g, b)
